@@ -262,23 +262,12 @@ pub struct FuzzRun {
 /// PassThrough generator, made for exactly this), so a coverage-guided fuzzer mutates generator decisions: every case it
 /// reaches is one the strategy can produce (sound by construction) and is judged by the sub-check's own oracle.
 ///
-/// PassThrough answers with zeros once its bytes are used up, and rand's unbiased range sampling rejects zero for most
-/// ranges - it would loop forever. So every input is followed by the same fixed 256 KiB pseudo-random tail (a pure
-/// function of nothing): short inputs get stable "default" decisions for everything they do not spell out, and no
-/// strategy here draws anywhere near that much (payload contents are derived from a drawn seed, not drawn byte by byte).
+/// Upstream's PassThrough generator pads with zeros once its bytes are used up (rand's unbiased range sampling then loops
+/// forever) and halves the remaining data at every lazily initialised union option and flat_map; /verif/vendor/proptest is
+/// proptest 1.11.0 with those two behaviours changed (padding = a fixed pseudo-random stream, children share the
+/// remaining range). A case is still a pure function of the input bytes.
 pub fn passthrough_rng(data: &[u8]) -> proptest::test_runner::TestRng {
-    static TAIL: std::sync::OnceLock<Vec<u8>> = std::sync::OnceLock::new();
-    let tail = TAIL.get_or_init(|| {
-        let mut v = vec![0u8; 256 * 1024];
-        let mut h = blake3::Hasher::new();
-        h.update(b"ovf passthrough tail");
-        h.finalize_xof().fill(&mut v);
-        v
-    });
-    let mut all = Vec::with_capacity(data.len() + tail.len());
-    all.extend_from_slice(data);
-    all.extend_from_slice(tail);
-    proptest::test_runner::TestRng::from_seed(RngAlgorithm::PassThrough, &all)
+    proptest::test_runner::TestRng::from_seed(RngAlgorithm::PassThrough, data)
 }
 
 pub fn case_from_bytes<C: Debug>(strategy: &BoxedStrategy<C>, data: &[u8]) -> Option<C> {
